@@ -149,8 +149,14 @@ func verifRunC07(c *verifsim.Ctx) {
 			lab := fmt.Sprintf("c%d.t%d:%s", i, j, k)
 			if k == "run-hook" {
 				sn := "snap" + strconv.Itoa(c.Draw("hook-snap", 3))
-				t.Set("hook-setup", &hookstate.HookSetup{Snap: sn, Hook: "configure"})
-				lab += "(" + sn + ")"
+				hs := &hookstate.HookSetup{Snap: sn, Hook: []string{"configure", "install", "pre-refresh"}[c.Draw("hook-name", 3)]}
+				// hooks of a snap's components are hooks of that snap too
+				if comp := c.Draw("hook-component", 3); comp > 0 {
+					hs.Component = "comp" + strconv.Itoa(comp)
+					c.Count("probe:component-hook")
+				}
+				t.Set("hook-setup", hs)
+				lab += "(" + sn + "+" + hs.Component + ":" + hs.Hook + ")"
 			}
 			labels[t.ID()] = lab
 			if prev != nil && c.Draw("edge", 2) == 1 {
